@@ -1,6 +1,6 @@
 (* C01 - interface files parse to a tree that mirrors the source exactly. *)
 From Coq Require Import String Ascii List Bool Arith Lia.
-From Wrap Require Import Base.Str Syntax.Ast Inst.Model Parse.Peg Parse.Build Parse.Spec Parse.RoundTrip Parse.RoundTripModule Parse.RoundTripDec.
+From Wrap Require Import Base.Str Syntax.Ast Inst.Model Parse.Peg Parse.Build Parse.Spec Parse.RoundTrip Parse.RoundTripPair Parse.RoundTripModule Parse.RoundTripDec.
 From Wrap Require gen.Grammar.
 Import ListNotations.
 Open Scope string_scope.
@@ -130,7 +130,8 @@ Proof.
     try reflexivity; try discriminate; try (vm_compute; tauto); try (vm_compute; lia); try (vm_compute; intuition discriminate).
 Qed.
 
-(* Nesting.  Declaration trees - functions, variables (`T name ;`), includes (`#include <path>`), enumerations
+(* Nesting.  Declaration trees - functions (also returning `pair < A , B >`: the pair form and the single templated type
+   `pair<A,B>` match the same text, the alternation keeps the pair form, which is listed first), variables (`T name ;`), includes (`#include <path>`), enumerations
    (`enum Name { A , B } ;`: the two-word keywords `enum class` / `enum struct` are tried on the same text and fail unless the
    name IS `class` / `struct` - `enum classy` is an enumeration named classy) and forward declarations (`class X ;`, which is
    also a well-formed variable declaration: the alternation keeps the alternative listed first) inside namespaces nested to any depth (below the constructors' depth limit
@@ -151,7 +152,8 @@ Definition sample_tree : list item :=
                     false PNone) "PoseList";
     INs "outer" [ INs "inner" [ IFn (sample_type, "make", [(sample_type, "x")]); IVar sample_type "origin" ]; INs "empty" [ IFwd true "Base" ];
                   IFn (TPlain (tn [] "Key") false PNone false, "g", []) ];
-    IFn (TPlain (tn [] "double") false PNone true, "h", []) ]%string.
+    IFn (TPlain (tn [] "double") false PNone true, "h", []);
+    IFnP (TPlain (tn ["gtsam"] "Pose3") true PRef false) (TPlain (tn [] "bool") false PNone true) "split" [(sample_type, "x")] ]%string.
 Example C01_items_nonvacuous :
   (forall i, In i sample_tree -> idepth i < depth_fuel /\ wf_item i) /\
   print_items sample_tree =
@@ -162,7 +164,8 @@ Example C01_items_nonvacuous :
      " const gtsam :: Foo < int , std :: vector < Bar * > , const ns :: a :: K < double & > @ > & make" ++
      " ( const gtsam :: Foo < int , std :: vector < Bar * > , const ns :: a :: K < double & > @ > & x ) ;" ++
      " const gtsam :: Foo < int , std :: vector < Bar * > , const ns :: a :: K < double & > @ > & origin ; }" ++
-     " namespace empty { virtual class Base ; } Key g ( ) ; } double h ( ) ;")%string /\
+     " namespace empty { virtual class Base ; } Key g ( ) ; } double h ( ) ;" ++
+     " pair < const gtsam :: Pose3 & , bool > split ( const gtsam :: Foo < int , std :: vector < Bar * > , const ns :: a :: K < double & > @ > & x ) ;")%string /\
   print_decls (map idecl sample_tree) = Some (print_items sample_tree).
 Proof.
   split; [|split; vm_compute; reflexivity].
